@@ -100,7 +100,8 @@ def checkSeen (now : Nat) (seen : List Seen) (objs : List (String Ã— List (Nat Ã
 
 /-! ### Payloads exact, objects mirrored (C01) -/
 
-def classPreds (ca : Json) (rcnS : String) (rc : Json) (cls : List (Nat Ã— ClassO)) (activated : Bool) : List String :=
+def classPreds (ca prevCa : Json) (rcnS : String) (rc : Json) (cls : List (Nat Ã— ClassO)) (activated : Bool) :
+    List String :=
   match currentKeyJ rc with
   | none => []
   | some k =>
@@ -128,11 +129,18 @@ def classPreds (ca : Json) (rcnS : String) (rc : Json) (cls : List (Nat Ã— Class
     let pubd := match get? cls (enc rcnS) with
       | some c => pubSig c.cur
       | none => []
-    let p4 := if sortBy (fun (a b : Nat Ã— Nat) => a.1 < b.1) mine == pubd then [] else ["ObjectsMirror"]
+    -- recorded finding F-C02-1: a key both in `issued` and (stale) in `suspended` â€“ the next shrink or
+    -- activation then loses track of the live certificate
+    let stale (c : Json) : Bool :=
+      (jkeys (jpath c ["resources", rcnS, "certificates", "issued"])).any fun k =>
+        !(jisNull (jpath c ["resources", rcnS, "certificates", "suspended", k]))
+    let p4 := if sortBy (fun (a b : Nat Ã— Nat) => a.1 < b.1) mine == pubd then [] else
+      if stale prevCa || stale ca then ["ObjectsMirror/stale-suspended-entry"] else ["ObjectsMirror"]
     p1 ++ p2 ++ p3 ++ p4
 
-def caPreds (ca : Json) (cls : List (Nat Ã— ClassO)) (activated : List String) : List String :=
-  (jfields (jget ca "resources")).flatMap fun (rcnS, rc) => classPreds ca rcnS rc cls (activated.contains rcnS)
+def caPreds (ca prevCa : Json) (cls : List (Nat Ã— ClassO)) (activated : List String) : List String :=
+  (jfields (jget ca "resources")).flatMap fun (rcnS, rc) =>
+    classPreds ca prevCa rcnS rc cls (activated.contains rcnS)
 
 /-! ### Renewal (C14) -/
 
